@@ -35,6 +35,9 @@ pub enum Letters {
     Order,
     /// naming sub-alphabet (C05)
     Naming,
+    /// small alphabet around the rules that cut a pipeline into sub-queries: a constant / computed column,
+    /// filter, sort, take, joins of every side, aggregates over the newest column — enumerated one step deeper
+    Split,
 }
 
 #[derive(Clone, Debug)]
@@ -43,6 +46,8 @@ pub struct GenState {
     pub ordered: bool,
     pub joins: usize,
     pub sorts: usize,
+    /// a column was renamed to a case variant of its name: no join may follow (see the naming menu)
+    pub case_renamed: bool,
 }
 
 pub fn lit_source() -> Source {
@@ -111,8 +116,55 @@ pub fn pipeline_ordered(p: &Pipeline, prog: &Program) -> bool {
     o
 }
 
+fn menu_split(st: &GenState, cfg: &GenCfg) -> Vec<Step> {
+    let f = &st.frame;
+    let r = f.referencable();
+    let mut m = vec![];
+    let (Some(&first), Some(&last)) = (r.first(), r.last()) else { return m };
+    if !f.cols.iter().any(|c| c.name.as_deref() == Some("z")) {
+        m.push(Step::Derive(vec![Item { alias: Some("z".into()), e: E::Int(1) }]));
+    }
+    if !f.cols.iter().any(|c| c.name.as_deref() == Some("x")) {
+        m.push(Step::Derive(vec![Item { alias: Some("x".into()), e: plus1(first) }]));
+    }
+    m.push(Step::Filter(E::bin(Op::Gt, E::Col(first), E::Int(1))));
+    if last != first {
+        m.push(Step::Filter(E::bin(Op::Gt, E::Col(last), E::Int(0))));
+        m.push(Step::Select(vec![col_item(first), col_item(last)]));
+    }
+    m.push(Step::Sort(vec![(false, E::Col(first))]));
+    if st.ordered {
+        m.push(Step::Take(Some(1), Some(2)));
+    }
+    if st.joins < cfg.max_joins && f.cols.len() <= 4 {
+        let n_a = f.cols.iter().filter(|c| c.name.as_deref() == Some("a")).count();
+        let left_a = n_a == 1 && (0..f.cols.len()).any(|i| f.cols[i].name.as_deref() == Some("a") && f.refname(i).is_some());
+        if left_a {
+            for side in [Side::Inner, Side::Left, Side::Right, Side::Full] {
+                m.push(Step::Join { side, right: Source::Sub(Box::new(closed_u())), alias: Some("r".into()), cond: Cond::EqName("a".into()) });
+            }
+        }
+    }
+    // the newest computed column (z, else x) is what the aggregates read, wherever a join has put it
+    let newest = r.iter().cloned().find(|&i| f.named(i) == Some("z")).or_else(|| r.iter().cloned().find(|&i| f.named(i) == Some("x")));
+    let last = newest.unwrap_or(last);
+    m.push(Step::Aggregate(vec![("n".into(), Agg::CountThis, None), ("s".into(), Agg::Sum, Some(last))]));
+    m.push(Step::Aggregate(vec![("s".into(), Agg::Sum, Some(first))]));
+    if last != first && f.named(first) != Some("s") {
+        m.push(Step::Group { keys: vec![first], inner: vec![Step::Aggregate(vec![("s".into(), Agg::Sum, Some({
+            // index of `last` inside the group's inner frame (keys removed)
+            let (_, map) = group_inner_frame(f, &[first]);
+            map.iter().position(|&i| i == last).unwrap_or(0)
+        }))])] });
+    }
+    m
+}
+
 /// Menu of next steps for the current state.
 pub fn menu(st: &GenState, prog: &Program, cfg: &GenCfg) -> Vec<Step> {
+    if cfg.letters == Letters::Split {
+        return menu_split(st, cfg);
+    }
     let f = &st.frame;
     let r: Vec<usize> = f.referencable();
     let r3: Vec<usize> = r.iter().cloned().take(3).collect();
@@ -150,6 +202,25 @@ pub fn menu(st: &GenState, prog: &Program, cfg: &GenCfg) -> Vec<Step> {
         }
     } else if let Some(&i) = r2.first() {
         m.push(Step::Select(vec![Item { alias: Some("x".into()), e: plus1(i) }]));
+    }
+    if naming {
+        // a pure rename to a name that differs from the column's own name only in letter case
+        if let Some(&i) = r2.first() {
+            if let Some(n) = f.named(i) {
+                let up = n.to_uppercase();
+                // no other column may carry the name in any case, now or later (joins are not offered afterwards)
+                let clash = f.cols.iter().enumerate().any(|(k, c)| k != i && c.name.as_deref().map(|x| x.eq_ignore_ascii_case(n)).unwrap_or(false));
+                if up != n && !clash {
+                    let mut items = vec![Item { alias: Some(up), e: E::Col(i) }];
+                    if let Some(&j) = r2.get(1) {
+                        items.push(col_item(j));
+                    }
+                    // (only as a select: SQLite matches quoted names case-insensitively, so a relation that
+                    // keeps both `a` and `A` cannot be observed on the substrate)
+                    m.push(Step::Select(items));
+                }
+            }
+        }
     }
     if naming {
         if let Some(&i) = r2.first() {
@@ -241,7 +312,7 @@ pub fn menu(st: &GenState, prog: &Program, cfg: &GenCfg) -> Vec<Step> {
     }
 
     // ---- join
-    if st.joins < cfg.max_joins && f.cols.len() <= 4 {
+    if st.joins < cfg.max_joins && f.cols.len() <= 4 && !st.case_renamed {
         // `(==a)` is only offered where `this.a` is unambiguous: exactly one left column called `a`
         let n_a = f.cols.iter().filter(|c| c.name.as_deref() == Some("a")).count();
         let left_a = (0..f.cols.len()).rev().find(|&i| n_a == 1 && f.cols[i].name.as_deref() == Some("a") && f.refname(i).is_some());
@@ -416,6 +487,7 @@ pub fn gen_program(c: &mut Ctx, cfg: &GenCfg) -> Option<Program> {
         ordered: pipeline_ordered(&pipe, &prog),
         joins: 0,
         sorts: 0,
+        case_renamed: false,
     };
     let k = 1 + c.choose(cfg.depth, "nsteps");
     for _ in 0..k {
@@ -432,6 +504,11 @@ pub fn gen_program(c: &mut Ctx, cfg: &GenCfg) -> Option<Program> {
             }
             Step::Group { .. } | Step::Aggregate(_) | Step::Append(_) => st.ordered = false,
             Step::Join { .. } => st.joins += 1,
+            Step::Select(items) => {
+                if items.iter().any(|it| matches!((&it.alias, &it.e), (Some(a), E::Col(_)) if a.chars().any(|c| c.is_ascii_uppercase()))) {
+                    st.case_renamed = true;
+                }
+            }
             _ => {}
         }
         pipe.steps.push(s);
